@@ -27,6 +27,8 @@ enum Op {
     Auto { stride: Option<u64>, maxnew: Option<u64>, dry: Option<bool> },
     Sched { stride: Option<u64>, maxnew: Option<u64>, block: Option<bool>, exec: Option<bool>, dry: Option<bool> },
     DropArt(u64),
+    /// damage the rebuildable caches under data/continuity_streams (no effect in the model: caches are not truth)
+    Fault(u64),
 }
 
 fn coq_on(o: &Option<u64>) -> String {
@@ -54,10 +56,12 @@ fn coq_op(o: &Op) -> String {
             format!("OSched {} {} {} {} {}", coq_on(stride), coq_on(maxnew), coq_ob(block), coq_ob(exec), coq_ob(dry))
         }
         Op::DropArt(a) => format!("ODropArt {a}"),
+        Op::Fault(_) => "OOther".into(), // never printed: filtered out by coq_case
     }
 }
 fn coq_case(ops: &[Op], expect: &[u64]) -> String {
-    format!("{{| c_consts := real_consts; c_ops := {}; c_expect := {} |}}", coq_list(ops, coq_op), coq_list_n(expect))
+    let model_ops: Vec<Op> = ops.iter().filter(|o| !matches!(o, Op::Fault(_))).cloned().collect();
+    format!("{{| c_consts := real_consts; c_ops := {}; c_expect := {} |}}", coq_list(&model_ops, coq_op), coq_list_n(expect))
 }
 fn case_json(ops: &[Op]) -> Value {
     json!({ "ops": ops.iter().map(|o| format!("{o:?}")).collect::<Vec<_>>() })
@@ -231,6 +235,47 @@ impl World {
         let log = Arc::new(EventLog::new(d.join("events.jsonl")).unwrap());
         let st = ContinuityStore::new(d, self.ws.clone(), log).unwrap();
         (sc, st)
+    }
+}
+
+// ------------------------------------------------------------------ cache faults
+const FAULT_NAMES: [&str; 8] = ["ord_drop_last_record", "ord_drop_last_2_records", "ord_delete", "ord_truncate_mid_record", "comp_idx_delete", "mr_sidecar_delete", "comp_sidecar_delete", "all_caches_delete"];
+/// Damage that a crash or a lost file can leave in the rebuildable caches and that the code recognises today
+/// (a lagging / torn / missing file).  States that are open C04 findings (a well-formed derived file that is not
+/// the projection: S4 / S4b / S4c / S4d) are not generated: the faults are applied only at the end of a case,
+/// followed by read-only queries, so no append can re-create a partial file.
+fn apply_fault(w: &World, kind: u64) {
+    let dir = w.data.join("continuity_streams");
+    let f = |suffix: &str| dir.join(format!("{}{}", w.tid, suffix));
+    let ord = f(".mr.msgord.v1.bin");
+    let shrink = |p: &Path, by: u64| {
+        if let Ok(m) = std::fs::metadata(p) {
+            if m.len() >= by {
+                if let Ok(file) = std::fs::OpenOptions::new().write(true).open(p) {
+                    let _ = file.set_len(m.len() - by);
+                }
+            }
+        }
+    };
+    match kind {
+        0 => shrink(&ord, 24),
+        1 => shrink(&ord, 48),
+        2 => {
+            let _ = std::fs::remove_file(&ord);
+        }
+        3 => shrink(&ord, 7),
+        4 => {
+            let _ = std::fs::remove_file(f(".comp.idx.v1.jsonl"));
+        }
+        5 => {
+            let _ = std::fs::remove_file(f(".mr.v1.jsonl"));
+        }
+        6 => {
+            let _ = std::fs::remove_file(f(".comp.v1.jsonl"));
+        }
+        _ => {
+            let _ = std::fs::remove_dir_all(&dir);
+        }
     }
 }
 
@@ -560,6 +605,10 @@ fn run_case(ops: &[Op], check_truth_path: bool) -> Run {
                 if std::fs::remove_file(w.blob(&id)).is_ok() {
                     dropped.push(id);
                 }
+            }
+            Op::Fault(k) => {
+                apply_fault(&w, *k);
+                stats.push(format!("fault={}", FAULT_NAMES[(*k as usize).min(7)]));
             }
             Op::Cut { stride, limit } => {
                 let req = CompactionCutPointsV1Request { stride_messages: *stride, limit: limit.map(|l| l as u32) };
@@ -1319,6 +1368,16 @@ fn gen_case(r: &mut Rng, long: bool) -> Vec<Op> {
             Op::DropArt(r.range(1, arts.max(1)))
         };
         ops.push(op);
+    }
+    if r.below(3) == 0 {
+        // terminal cache-fault block: damage the caches, then only read-only queries (dry runs append nothing)
+        let st = if pref == 0 { 2 } else { pref };
+        ops.push(Op::Fault(r.below(8)));
+        ops.push(Op::Cut { stride: Some(st), limit: Some(32) });
+        ops.push(Op::Status { stride: Some(st) });
+        ops.push(Op::Auto { stride: Some(st), maxnew: Some(32), dry: Some(true) });
+        ops.push(Op::Sched { stride: Some(st), maxnew: Some(2), block: Some(true), exec: Some(true), dry: Some(true) });
+        ops.push(Op::Cut { stride: Some(1), limit: Some(3) });
     }
     ops
 }
